@@ -7,23 +7,23 @@ namespace XotModel
 open HTree
 
 /-- "not a normal node", the filter of `prepend`'s insertion point and of `first_child`. -/
-def abn (k : HTree) : Bool := k.value.category != .normal
+def fiAbn (k : HTree) : Bool := k.value.category != .normal
 
-theorem abn_eq_not_isNormal : (fun k : HTree => !k.value.isNormal) = abn := by
-  funext k; simp [abn, Value.isNormal, bne]
+theorem abn_eq_not_isNormal : (fun k : HTree => !k.value.isNormal) = fiAbn := by
+  funext k; simp [fiAbn, Value.isNormal, bne]
 
 /-- In a sorted child list everything after the leading non-normal children is normal. -/
 theorem normal_dropWhile_of_sorted {ks : List HTree} (h : Sorted ks) :
-    ∀ y ∈ ks.dropWhile abn, y.value.category = .normal := by
+    ∀ y ∈ ks.dropWhile fiAbn, y.value.category = .normal := by
   induction ks with
   | nil => simp
   | cons k ks ih =>
     have hs : Sorted ks := by
       unfold Sorted at h ⊢; rw [List.map_cons, List.pairwise_cons] at h; exact h.2
-    by_cases hk : abn k = true
+    by_cases hk : fiAbn k = true
     · rw [List.dropWhile_cons_of_pos hk]; exact ih hs
     · rw [List.dropWhile_cons_of_neg hk]
-      have hkn : k.value.category = .normal := by simpa [abn] using hk
+      have hkn : k.value.category = .normal := by simpa [fiAbn] using hk
       intro y hy
       rw [List.mem_cons] at hy
       rcases hy with hy | hy
@@ -37,11 +37,11 @@ theorem normal_dropWhile_of_sorted {ks : List HTree} (h : Sorted ks) :
 namespace Forest
 
 theorem firstChild_eq {f : Forest} {p : Nat} {K : HTree} (hK : f.get? p = some K) :
-    f.firstChild p = ((K.kids.dropWhile abn).head?).map (·.handle) := by
+    f.firstChild p = ((K.kids.dropWhile fiAbn).head?).map (·.handle) := by
   unfold firstChild; rw [hK, abn_eq_not_isNormal]
 
 theorem prependPoint_eq {f : Forest} {p : Nat} {K : HTree} (hK : f.get? p = some K) :
-    f.prependPoint p = ((K.kids.takeWhile abn).getLast?).map (·.handle) := by
+    f.prependPoint p = ((K.kids.takeWhile fiAbn).getLast?).map (·.handle) := by
   unfold prependPoint; rw [hK]; rfl
 
 /-- `prepend` preserves the invariant, whatever it answers. -/
@@ -79,11 +79,11 @@ theorem prepend_inv {f : Forest} (hi : f.Inv) (p c : Nat) : (f.prepend p c).1.In
       have hKvalid := so.inv.validTree_of_loc locp
       rw [validTree_eq, Bool.and_eq_true] at hKvalid
       have KK := (kidsOK_iff _ _ _).mp hKvalid.1
-      have hsplit : K.kids.takeWhile abn ++ K.kids.dropWhile abn = K.kids := List.takeWhile_append_dropWhile
+      have hsplit : K.kids.takeWhile fiAbn ++ K.kids.dropWhile fiAbn = K.kids := List.takeWhile_append_dropWhile
       have hrestn := normal_dropWhile_of_sorted KK.sorted
       -- in strict mode with a text `c`: nothing has happened so far, and the first normal child
       -- of `p` is neither `c` nor text
-      have hhead : f2.everOff = false → cv.isText = true → ∀ n rest', K.kids.dropWhile abn = n :: rest' →
+      have hhead : f2.everOff = false → cv.isText = true → ∀ n rest', K.kids.dropWhile fiAbn = n :: rest' →
           n.handle ≠ c ∧ n.value.isText = false := by
         intro hoff hct n rest' hn
         have hoff' : f.everOff = false := by rw [← so.everOff]; exact hoff
@@ -105,7 +105,7 @@ theorem prepend_inv {f : Forest} (hi : f.Inv) (p c : Nat) : (f.prepend p c).1.In
             rw [← hfc, h2] at this
             cases this
       rw [prependPoint_eq hK]
-      cases hlast : (K.kids.takeWhile abn).getLast? with
+      cases hlast : (K.kids.takeWhile fiAbn).getLast? with
       | none =>
         simp only [Option.map_none]
         rw [List.getLast?_eq_none_iff] at hlast
@@ -125,20 +125,20 @@ theorem prepend_inv {f : Forest} (hi : f.Inv) (p c : Nat) : (f.prepend p c).1.In
       | some IP =>
         simp only [Option.map_some]
         have key : (f2.checkedInsertAfter IP.handle c).1.Inv := by
-          obtain ⟨a, hnn⟩ : ∃ a, K.kids.takeWhile abn = a ++ [IP] := by
-            rcases List.eq_nil_or_concat (K.kids.takeWhile abn) with h0 | ⟨a, x, h0⟩
+          obtain ⟨a, hnn⟩ : ∃ a, K.kids.takeWhile fiAbn = a ++ [IP] := by
+            rcases List.eq_nil_or_concat (K.kids.takeWhile fiAbn) with h0 | ⟨a, x, h0⟩
             · rw [h0] at hlast; simp at hlast
             · rw [List.concat_eq_append] at h0
               rw [h0] at hlast; simp at hlast; subst hlast; exact ⟨a, h0⟩
-          have hIPabn : abn IP = true := by
-            have := List.all_takeWhile (l := K.kids) (p := abn)
+          have hIPabn : fiAbn IP = true := by
+            have := List.all_takeWhile (l := K.kids) (p := fiAbn)
             rw [hnn, List.all_eq_true] at this
             exact this IP (by simp)
-          have hIPcat : IP.value.category ≠ .normal := by simpa [abn] using hIPabn
-          have hkids : K.kids = a ++ IP :: K.kids.dropWhile abn := by
-            have : K.kids = (a ++ [IP]) ++ K.kids.dropWhile abn := by rw [← hnn]; exact hsplit.symm
+          have hIPcat : IP.value.category ≠ .normal := by simpa [fiAbn] using hIPabn
+          have hkids : K.kids = a ++ IP :: K.kids.dropWhile fiAbn := by
+            have : K.kids = (a ++ [IP]) ++ K.kids.dropWhile fiAbn := by rw [← hnn]; exact hsplit.symm
             simpa using this
-          have locip : Loc f2.roots IP.handle (path ++ [⟨lp, p, pv, rp⟩]) a IP (K.kids.dropWhile abn) := by
+          have locip : Loc f2.roots IP.handle (path ++ [⟨lp, p, pv, rp⟩]) a IP (K.kids.dropWhile fiAbn) := by
             refine ⟨?_, rfl⟩
             rw [plug_append, locp.eq, ← hkids, ← hKv, ← locp.hk]
             simp [node_eta]
